@@ -19,6 +19,9 @@ package c09links
 //	root.UsedUserTypes() twice                "twice"
 //	type_i.UsedUserTypes()                    "type after root Check"
 //	type_i.Check(); type_i.UsedUserTypes()    "type after own Check"   (the type object compiled as a root itself)
+//
+// Then (serveLate) a FRESH set of objects walks a prefix of the same history without asking, and asks once at the
+// end: the FIRST UsedUserTypes() call on the root / on every type object at that point.
 
 import (
 	"bufio"
@@ -182,7 +185,70 @@ func serve(req *request) response {
 		}
 		at("after the types' own Check")
 	}
+	if !childTimedOut {
+		serveLate(req, &res, mk)
+	}
 	return res
+}
+
+// serveLate: a FRESH set of objects (root + types) walks a prefix of the history WITHOUT any UsedUserTypes() call,
+// and only then asks — so the call is the FIRST one on its object at that point (a list computed lazily, on the
+// first request, from the tree as it is by then would show here; the same-object sequence above only shows
+// instability). The point is picked by the request number: after AddType / Check / GetAST / Example / Validate for
+// the root; for the type objects after the root's Check or after their own Check as well.
+func serveLate(req *request, res *response, mk func(name, text string) *jschema.Schema) {
+	root := mk("root", req.Root)
+	ts := make([]*jschema.Schema, len(req.Types))
+	for i, t := range req.Types {
+		ts[i] = mk(t.Name, t.Text)
+	}
+	for i, t := range req.Types {
+		i, t := i, t
+		if t.Owner == -2 {
+			continue
+		}
+		owner := root
+		if t.Owner >= 0 {
+			owner = ts[t.Owner]
+		}
+		call(func() string { return errString(owner.AddType(t.Name, ts[i])) })
+	}
+	point := req.ID % 5
+	label := "after AddType"
+	if point >= 1 && !childTimedOut {
+		label = "after Check"
+		check := call(func() string { return errString(root.Check()) })
+		if point == 2 && !childTimedOut {
+			label = "after GetAST"
+			call(func() string { _, err := root.GetAST(); return errString(err) })
+		}
+		if point >= 3 && check == "OK" && !childTimedOut {
+			label = "after Example"
+			var ex []byte
+			e := call(func() string { b, err := root.Example(); ex = b; return errString(err) })
+			if point == 4 && e == "OK" && !childTimedOut {
+				label = "after Validate"
+				call(func() string { return errString(root.Validate(jdoc.New("example", ex))) })
+			}
+		}
+	}
+	if childTimedOut {
+		return
+	}
+	res.Used = append(res.Used, usedAt{"FIRST call " + label, usedOf(root)})
+	ownCheck := (req.ID/5)%2 == 1
+	for i := range ts {
+		if childTimedOut {
+			return
+		}
+		i := i
+		tl := "type FIRST call, root " + label
+		if ownCheck {
+			tl += ", after own Check"
+			call(func() string { return errString(ts[i].Check()) })
+		}
+		res.TypeUsed[i] = append(res.TypeUsed[i], usedAt{tl, usedOf(ts[i])})
+	}
 }
 
 func childMain() {
